@@ -6,7 +6,7 @@ import random
 
 from ..core import Case, Prop
 from ..perutil import (DATED, FAMILY, O, addm, align, end_ord, fmt_date, fmt_period, parse_date,
-                       parse_period_token, some_date, uniform_date)
+                       parse_period_token, edge_date, some_date, uniform_date)
 
 NAMED = ["this_year", "first_month", "first_day", "first_week", "first_weekday", "last_month",
          "last_3_months", "last_year", "n_2", "last_week", "last_fortnight", "last_2_weeks",
@@ -51,6 +51,20 @@ def impl(case: Case) -> str:
             return "none" if r is None else fmt_period(r)
         if op in NAMED:
             return fmt_period(getattr(p, op))
+        if op == "date":
+            d = p.date
+            return fmt_date((d.year, d.month, d.day))
+        if op == "is_eternal":
+            return ("T" if p.is_eternal else "F") + "," + ("T" if p.start.is_eternal else "F")
+        if op == "key":
+            from openfisca_core import periods
+            return periods.key_period_size(p).encode("ascii").hex()
+        if op == "weight":
+            from openfisca_core import periods
+            w = periods.unit_weight(p.unit)
+            return str(w) if periods.unit_weights()[p.unit] == w else f"{w}!table"
+        if op == "isofmt":
+            return ("T" if p.unit in DateUnit.isoformat else "F") + "," + ("T" if p.unit in DateUnit.isocalendar else "F")
     except Exception:
         return "ERR"
     raise ValueError("unknown op " + op)
@@ -187,6 +201,11 @@ def oracle(case: Case, out: str):
             return None
         if out != f[2]:
             return ("offset-roundtrip", f"offset {k} {ou} then {-k} gives {out}")
+    elif op in ("ioffset", "offset") and len(rest) == 2:
+        return _shift_oracle(op, f[2], u, s, n, rest[0], rest[1], out, lo)
+    elif op == "is_eternal":
+        if out != "F,F":
+            return ("is-eternal", f"a dated period answers is_eternal={out}")
     elif op in ("this_year", "first_month", "first_day", "first_week", "first_weekday", "last_month",
                 "last_3_months", "last_year", "n_2", "last_week", "last_2_weeks"):
         d = dt.date(*s)
@@ -215,6 +234,53 @@ def oracle(case: Case, out: str):
     return None
 
 
+def _shift_oracle(op, ptok, u, s, n, off, ou, out, lo):
+    """the start moved to the first / last day of the unit containing it, or by k units (month and year
+    shifts only when the day cannot be clipped); a period keeps its unit and size"""
+    if ou == "eternity":
+        return None
+    d = dt.date(*s)
+    want = None
+    try:
+        if off == "first-of":
+            if ou == "year":
+                want = (s[0], 1, 1)
+            elif ou == "month":
+                want = (s[0], s[1], 1)
+            elif ou == "week":
+                if d.toordinal() - d.weekday() < 1:
+                    return None
+                want = (d - dt.timedelta(days=d.weekday())).timetuple()[:3]
+            else:
+                return None
+        elif off == "last-of":
+            if ou == "year":
+                want = (s[0], 12, 31)
+            elif ou == "month":
+                want = dt.date.fromordinal(end_ord("month", (s[0], s[1], 1), 1)).timetuple()[:3]
+            elif ou == "week":
+                want = (d + dt.timedelta(days=6 - d.weekday())).timetuple()[:3]
+            else:
+                return None
+        else:
+            k = int(off)
+            if ou in ("month", "year"):
+                if s[2] > 28:
+                    return None
+                want = addm(d, k * (12 if ou == "year" else 1)).timetuple()[:3]
+            else:
+                want = (d + dt.timedelta(days=k * (7 if ou == "week" else 1))).timetuple()[:3]
+    except (ValueError, OverflowError):
+        return None
+    want = tuple(want)
+    if not (2 <= want[0] <= 9990):
+        return None
+    w = fmt_date(want) if op == "ioffset" else f"{u}/{fmt_date(want)}/{n}"
+    if out != w:
+        return ("shift", f"{op} {off} {ou} of {ptok} gives {out}, the calendar says {w}")
+    return None
+
+
 def nontrivial(case: Case, out: str) -> bool:
     f = case.line.split()
     return out not in ("ERR", "none") and not f[2].endswith("/1") or f[1] in ("subperiods", "intersection", "contains")
@@ -233,9 +299,9 @@ def _claimed_sizes(op, u):
     return True
 
 
-def _rand_period(rng, aligned=None, hi_year=9000):
+def _rand_period(rng, aligned=None, hi_year=9000, edges=False):
     u = rng.choice(DATED)
-    s = some_date(rng, 1, hi_year)
+    s = edge_date(rng) if edges else some_date(rng, 1, hi_year)
     if aligned is None:
         aligned = rng.random() < 0.7
     if aligned:
@@ -243,6 +309,8 @@ def _rand_period(rng, aligned=None, hi_year=9000):
         if u == "year" and rng.random() < 0.6:
             s = (s[0], 1, 1)
     n = rng.choice([1, 1, 1, 2, 3, 4, 5, 7, 12, 13, 24, 36, 52, 53, 100, rng.randint(1, 400)])
+    if edges:
+        n = rng.choice([1, 1, 2, 3, 4, 5, 6, 7, 8, 11, 12, 13, 14, 28, 29, 30, 31, 48, 52, 53, 54, 59, 60, 365, 366, 367, 400, 1461])
     return u, s, n
 
 
@@ -279,10 +347,30 @@ def _cases_for(rng: random.Random, u, s, n):
         out.append(_mk("offset", p, k, ou, tags=(ou,)))
     out.append(_mk("offset", p, rng.choice([-1, 1, 5])))
     for o in ("first-of", "last-of"):
-        for ou in ("year", "month", "week", "day"):
+        for ou in ("year", "month", "week", "day", "weekday"):
             out.append(_mk("ioffset", p, o, ou))
+            out.append(_mk("offset", p, o, ou, tags=(o,)))
+        out.append(_mk("offset", p, o, tags=(o,)))
+    for ou in DATED:
+        out.append(_mk("ioffset", p, rng.choice([0, 1, -1, 2, 7, 12, -12, 30, 31, 52, 53, 365, -366, 1461, rng.randint(-3000, 3000)]), ou, tags=(ou,)))
     for op in NAMED:
         out.append(_mk(op, p))
+    for op in ("date", "is_eternal", "key", "weight", "isofmt"):
+        out.append(_mk(op, p, tags=(u,)))
+    # siblings in sequence, within one process: the same start with another size / another unit, the next day, and the
+    # period itself again -- an answer remembered under a key that forgets the size, the unit or the day would show
+    try:
+        nxt = dt.date.fromordinal(O(s) + 1).timetuple()[:3]
+        u2 = DATED[(DATED.index(u) + 1 + n % 4) % 5]
+        sibs = [p, _tok(u, s, n + 1), _tok(u2, s, n), _tok(u, nxt, n), _tok(u, s, 1), _tok(u2, s, 1), p]
+        for op in ("stop", "days", "size_in_days", "this_year", "first_week", "last_month", "key"):
+            for q in sibs:
+                out.append(_mk(op, q, tags=("sibling",)))
+        for q in sibs:
+            out.append(_mk("ioffset", q, "last-of", "month", tags=("sibling",)))
+            out.append(_mk("subperiods", q, "day" if n <= 12 else "month", claimed=False, tags=("sibling",)))
+    except (ValueError, OverflowError):
+        pass
     # a second period: sub / super / overlapping / disjoint
     u2 = rng.choice(DATED)
     kind = rng.choice(["near", "inside", "same", "far"])
@@ -331,10 +419,15 @@ def _cases_for(rng: random.Random, u, s, n):
 
 
 def generate(rng: random.Random, tier: str):
-    n_periods = 700 if tier == "quick" else 12000
+    n_periods = 900 if tier == "quick" else 12000
+    n_edges = 900 if tier == "quick" else 8000
     out = []
     for _ in range(n_periods):
         u, s, n = _rand_period(rng)
+        out += cases_for(rng, u, s, n)
+    # the same operations around the turn of the year / ISO week 53 / end of February / month ends / ends of the calendar
+    for _ in range(n_edges):
+        u, s, n = _rand_period(rng, edges=True)
         out += cases_for(rng, u, s, n)
     # a few eternity / degenerate lines (answered, not binding)
     for op in ["stop", "days", "size_in_days", "this_year", "first_month"]:
@@ -360,6 +453,10 @@ def enumerate_thorough():
                 out.append(_mk("subperiods", _tok(u, s, 2), "month", tags=("enum",)))
             if u == "week" and d.weekday() == 0:
                 out.append(_mk("subperiods", _tok(u, s, 2), "weekday", tags=("enum",)))
+        one = _tok("day", s, 1)
+        out.append(_mk("ioffset", one, "first-of", "week", tags=("enum",)))
+        out.append(_mk("ioffset", one, "last-of", "week", tags=("enum",)))
+        out.append(_mk("ioffset", one, "last-of", "month", tags=("enum",)))
         d += dt.timedelta(days=1)
     return out
 
@@ -384,7 +481,11 @@ def eternity_stream():
     """the sixth unit: what every operation answers for the ETERNITY period / the eternity unit (no calendar
     statement applies, the oracle is silent; binding for the correspondence)"""
     E, P = "eternity/-1,-1,-1/-1", "month/2018,1,1/1"
-    out = [f"per {op} {E}" for op in ["stop", "days"] + SIZES + NAMED]
+    out = [f"per {op} {E}" for op in ["stop", "days"] + SIZES + NAMED + ["date", "is_eternal", "key", "weight", "isofmt"]]
+    # periods that are almost the ETERNITY period, and dated periods of size 0 / -1 (`date` needs size 1)
+    for q in ["eternity/-1,-1,-1/1", "eternity/2018,1,1/-1", "day/-1,-1,-1/-1", "year/2018,1,1/0", "month/2018,1,1/-1",
+              "day/2018,2,30/1", "week/2018,1,1/1", "weekday/2018,1,1/2"]:
+        out += [f"per {op} {q}" for op in ("date", "is_eternal", "key", "weight", "isofmt")]
     for u in ["day", "month", "year", "week", "weekday", "eternity"]:
         out += [f"per subperiods {E} {u}", f"per offset {E} 1 {u}", f"per offset {E} -2 {u}", f"per offset {E} first-of {u}",
                 f"per offset {E} last-of {u}", f"per offset_rt {E} 1 {u}"]
@@ -426,12 +527,19 @@ PROP = Prop(
           "(28-31 of months of leap/non-leap/century years, ISO-week-53 years, years 1, 4, 100, 400, 1000, 9000) and 40% "
           "uniformly over years 1..9000, sizes 1..400, all five dated units; ops stop/days/size_in_*/subperiods:<unit>/"
           "offset/offset round trip/instant offset/contains/intersection/named periods; second periods built "
-          "near/inside/same/far. A case is non-trivial when its size is not 1 or the op relates two periods / splits; "
+          "near/inside/same/far; a second stream of as many periods drawn around the edges the algebra turns on (28 Dec - 5 Jan of 53-week ISO years "
+          "and of years beginning on every weekday, 27 Feb - 1 Mar of leap / common / century years, first / last / last-but-one day of months, "
+          "the first days of year 1 and the last of year 9999) with sizes 1..14, 28..31, 52..54, 59, 60, 365..367, 400, 1461; first-of / last-of "
+          "for every unit through Period.offset and Instant.offset, integer instant shifts for every unit, Period.date, is_eternal, "
+          "key_period_size, unit_weight, DateUnit.isoformat / isocalendar membership. A case is non-trivial when its size is not 1 or the op relates two periods / splits; "
           "distinct = distinct protocol lines. Corpus: the sixth unit -- every operation on the ETERNITY period and with the eternity unit "
           "(binding for the correspondence, no calendar statement applies)."),
     assumptions=[
         "pendulum.Date.add/start_of/end_of/diff().in_weeks and datetime.date.toordinal/isocalendar are modelled (Calendar.lean), tied by this correspondence",
         "claim domain: dated units, sizes >= 1, years 1..9999; year<->week(day) sizes and cross-family or unaligned sub-periods are compared but not binding",
+        "the oracle of a shift (offset / Instant.offset with an integer, first-of, last-of) is the calendar meaning of the words: the first / last day of the "
+        "year, month or ISO week containing the date; n units later (month and year shifts only when the day is <= 28, i.e. cannot be clipped)",
+        "Period.date, key_period_size, unit_weight, isoformat / isocalendar membership: no calendar statement applies, binding through the correspondence only",
     ],
-    exhaustive_note="thorough: every start date 2000-01-01..2399-12-31 (one full Gregorian cycle) x 5 units x sizes {1,2,3,12,13} for stop/days + aligned tilings",
+    exhaustive_note="thorough: every start date 2000-01-01..2399-12-31 (one full Gregorian cycle) x 5 units x sizes {1,2,3,12,13} for stop/days + aligned tilings + first-of/last-of week and last-of month of every date",
 )
